@@ -5,12 +5,8 @@ PROP = dict(
     family="mem", harness="mem", run_vo="Run/Mem.vo",
     theorems=["C23_refine_step", "C23_refine_history", "C23_invariant", "C23_no_host_panic",
               "C23_fresh_zero", "C23_copy_overlap_refused", "C23_copy_overlap_kind", "C23_rollback",
-              "C23_refine_history_unconditional_refuted"],
+              "C23_rollback_heap_precondition", "C23_rollback_total_otherwise", "C23_rollback_regression_witness"],
     open_statements=[
-        "refines_all_histories (Mem/MemModel.v): the refinement for ALL histories without the side condition "
-        "`hist_defined` on rollback is REFUTED (theorem C23_refine_history_unconditional_refuted, witness_history): "
-        "collect_rollback_data panics when the snapshot's stack extent exceeds the current one; the implementation "
-        "panics on the same history (oracle class rollback-panics-when-snapshot-stack-extent-exceeds-current)",
         "write/write_bytes with ownership checks, memclear, push/pop_selected_registers, load/store are not modelled "
         "here (ownership is C24); memcopy is modelled including its ownership test",
     ],
@@ -27,26 +23,29 @@ PROP = dict(
         "prev_hp is VM_MAX_RAM (no call frame)",
     ],
     assumptions=[
-        "rollback: theorems C23_refine_step/C23_refine_history/C23_rollback assume `rollback_defined` / `hist_defined`: at every rollback the "
-        "snapshot's stack extent is <= the current stack extent (or the documented heap assertion fires); without it the statement is refuted",
+        "no side condition on histories: the only precondition of rollback is the documented assertion snapshot.hp >= current.hp; it is part of the "
+        "specification (SRollback returns HostPanic otherwise) and stated by C23_rollback_heap_precondition / C23_rollback_total_otherwise. "
+        "HISTORICAL: before fix 75e7afe (collect_rollback_data compared self.stack[..sp] and panicked when the snapshot's stack extent exceeded the "
+        "current one) the theorems carried a side condition and the unconditional statement was refuted; the witness history is now a corpus case "
+        "and theorem C23_rollback_regression_witness, and the oracle class rollback-panics-when-snapshot-stack-extent-exceeds-current stays as a regression detector",
         "the operations of a history are: grow_stack, grow_heap_by, verify, read, write_noownerchecks, memcopy, reset, clone (snapshot), "
         "collect_rollback_data+rollback against the saved clone",
     ],
     rule=("histories of <= 60 operations (40 at full 64 MiB scale) on one MemoryInstance inside one Interpreter, starting from new(); sizes/addresses from "
           "{0,1,7,8,9,32,255,256,257,2^k,2^k+-1,MEM-1,MEM,MEM+1} and boundary addresses (stack end, hp, end of memory), resets between transactions, "
-          "snapshot/rollback; 8 hand-written corner histories (reset+in-place growth, reset+reallocation, whole memory, heap overtaking the stack, "
-          "overlapping copies, rollback incl. both panics); every operation's result (unit / error kind / bytes read, sparse) is compared with the Gallina "
+          "snapshot/rollback; 9 hand-written corner histories (reset+in-place growth, reset+reallocation, whole memory, heap overtaking the stack, "
+          "overlapping copies, rollback incl. the heap assertion and the two 75e7afe regression histories); every operation's result (unit / error kind / bytes read, sparse) is compared with the Gallina "
           "L1 model and with a flat sparse reference array written in the harness; distinct = distinct history text; non-trivial = >= 5 operations "
           "with at least one non-zero read and one refused operation"),
     level_text=("Machine-checked proof (Coq) that the two-buffer MemoryInstance model (stack Vec, over-allocated heap Vec, hp) refines a flat zero-initialised "
                 "64 MiB array with the accessibility rule of the property, for every operation and, by induction over the operation list, every history "
                 "from new(): same unit/error/bytes results, same bounds, same accessible bytes; invariant stack.len <= hp <= MEM, MEM-hp <= heap.len <= MEM "
                 "preserved unconditionally; no Rust panic outside rollback; fresh heap bytes read zero from any (dirty) buffer in both branches of "
-                "grow_heap_by; overlapping copies refused; rollback restores the snapshot's accessible contents under the stated side condition, "
-                "whose necessity is proved by a witness history (finding)"),
+                "grow_heap_by; overlapping copies refused; rollback restores the snapshot's accessible contents for every current stack extent "
+                "(the only precondition is the documented heap assertion, which the specification shares)"),
     level_note=("Trusted: Coq kernel; the hand-written L1 model (tied to memory.rs by correspondence testing on every run: testing, not proof); the sparse-vector "
-                "library; the harness. Ownership-checked writes and the instruction wrappers are outside this property's model. The rollback theorems carry an "
-                "explicit side condition; the unconditional statement is refuted on model and implementation."),
+                "library; the harness. Ownership-checked writes and the instruction wrappers are outside this property's model. The model mirrors "
+                "collect_rollback_data as repaired by 75e7afe."),
     technique="Coq forward-simulation proof (abstraction function + representation invariant, induction over histories) + differential model/impl run + flat-array oracle",
     design_ref="6/C23",
     quick_shards=8,
